@@ -1,10 +1,158 @@
-import CentrifugeVerif.Model.Filter
+import CentrifugeVerif.Proofs.Filter
+/-!
+# C15 — Tags filter evaluation matches its specification
+
+Model: `Model/Filter.lean` (`Match`, `Validate`, the input of `Hash`) and `Model/Decimal.lean`
+(`udecimal.Parse`, `Cmp`).  Specification: `Proofs/FilterSpec.lean` (`WellFormed`, `sem`) and
+`Proofs/Decimal.lean` (`exactLt`, `exactLe`).  All statements are for every tree (any depth and
+width, any byte strings) and every tag map.
+
+The code as it is (`matchN false`) violates the property text on `in`/`nin`: an absent key is read
+as `""`, which may be a member of the value set (`match_unfixed_counterexample`).  Hence
+* `match_eq_sem_partial`  — code as it is, for trees without `""` inside `in`/`nin` sets;
+* `match_eq_sem_fixed`    — full statement for the variant honouring `ok` (`matchN true`);
+* `match_eq_sem_current`  — for whichever variant `Model.Filter.fixApplied` selects.
+-/
 namespace CentrifugeVerif.Filter
 open CentrifugeVerif.Decimal
 
-/-- `In("k", ["", "a"])` -/
-def witnessIn : Node := .mk [] [107] cIn [] [[], [97]] .nil
+/-! ## Validation accepts exactly the well-formed trees -/
 
-theorem match_unfixed_witness : matchN false [] witnessIn = .val true := by decide
+/-- `Validate` returns nil (no error, no panic) iff the tree is well-formed. -/
+theorem validate_iff_wellFormed (n : Node) : validate n = .ok ↔ WellFormed n := validate_ok_iff n
+
+/-- … and the same for a slice of children. -/
+theorem validateAll_iff_allWF (ns : Nodes) : validateAll ns = .ok ↔ AllWF ns := validateAll_ok_iff ns
+
+/-! ## Matching a validated tree never errors (nor panics) -/
+
+/-- for both variants, hence for the code as it is, with no side condition -/
+theorem match_total_on_valid (fix : Bool) (t : Tags) (n : Node) (h : validate n = .ok) :
+    ∃ b, matchN fix t n = .val b :=
+  (MRes.isVal_iff _).mp (matchN_total fix t n ((validate_iff_wellFormed n).mp h))
+
+theorem Match_total_on_valid (t : Tags) (n : Node) (h : validate n = .ok) : ∃ b, Match t n = .val b :=
+  match_total_on_valid fixApplied t n h
+
+/-! ## Matching returns the denotation -/
+
+/-- Full statement, for `Match` with `in`/`nin` honouring key presence. -/
+theorem match_eq_sem_fixed (t : Tags) (n : Node) (h : WellFormed n) :
+    matchN true t n = .val (sem t n) :=
+  matchN_sem true t n h (Or.inl rfl)
+
+/-- Code as it is.  Full statement (false, see `match_unfixed_counterexample`):
+`∀ t n, WellFormed n → matchN false t n = .val (sem t n)`.
+Proved under the hypothesis that no `in`/`nin` leaf has `""` among its values. -/
+theorem match_eq_sem_partial (t : Tags) (n : Node) (h : WellFormed n) (hne : NoEmptyInSets n) :
+    matchN false t n = .val (sem t n) :=
+  matchN_sem false t n h (Or.inr hne)
+
+/-- `filter.Match` as currently modelled (`fixApplied`). -/
+theorem match_eq_sem_current (t : Tags) (n : Node) (h : WellFormed n)
+    (hs : fixApplied = true ∨ NoEmptyInSets n) : Match t n = .val (sem t n) :=
+  matchN_sem fixApplied t n h hs
+
+/-- `In("k", ["", "a"])` and `Nin("k", [""])` -/
+def witnessIn : Node := .mk [] [107] cIn [] [[], [97]] .nil
+def witnessNin : Node := .mk [] [107] cNin [] [[]] .nil
+
+/-- Counter-witness for the code as it is: both trees are accepted by `Validate`; on a tag map
+without the key, `in` matches and `nin` does not, while the key "is in no set". -/
+theorem match_unfixed_counterexample :
+    validate witnessIn = .ok ∧ matchN false [] witnessIn = .val true ∧ sem [] witnessIn = false ∧
+    validate witnessNin = .ok ∧ matchN false [] witnessNin = .val false ∧ sem [] witnessNin = true := by
+  decide
+
+/-- … and the variant honouring `ok` gets both right. -/
+example : matchN true [] witnessIn = .val false ∧ matchN true [] witnessNin = .val true := by decide
+
+/-! ## what `sem` says (reading the specification back) -/
+
+/-- a missing key: exactly `neq`, `nin`, `nex` hold — it equals no value and is in no set -/
+theorem sem_missing_key (t : Tags) (key cmp val : Str) (vals : List Str) (nodes : Nodes)
+    (h : t.lookup key = none) :
+    sem t (.mk [] key cmp val vals nodes) = decide (cmp = cNeq ∨ cmp = cNin ∨ cmp = cNex) := by
+  rw [sem.eq_def]; simp [semLeaf, h]
+
+theorem sem_in (t : Tags) (key val : Str) (vals : List Str) (nodes : Nodes) :
+    sem t (.mk [] key cIn val vals nodes) = true ↔ ∃ v, t.lookup key = some v ∧ v ∈ vals := by
+  rw [sem.eq_def]
+  cases h : t.lookup key <;> simp (config := {decide := true}) [semLeaf, h]
+
+theorem sem_nin (t : Tags) (key val : Str) (vals : List Str) (nodes : Nodes) :
+    sem t (.mk [] key cNin val vals nodes) = true ↔ ¬ ∃ v, t.lookup key = some v ∧ v ∈ vals := by
+  rw [sem.eq_def]
+  cases h : t.lookup key <;> simp (config := {decide := true}) [semLeaf, h]
+
+/-- numeric leaves: true iff the key is present, the engine accepts both numerals, and the two
+rational numbers are in the stated order (shown for `lt`; `gt/gte/lte` are the other three
+branches of `semNum`). -/
+theorem sem_lt (t : Tags) (key val : Str) (vals : List Str) (nodes : Nodes) :
+    sem t (.mk [] key cLt val vals nodes) = true ↔
+      ∃ v a b, t.lookup key = some v ∧ Decimal.parse v = some a ∧ Decimal.parse val = some b ∧ exactLt a b := by
+  rw [sem.eq_def]
+  cases h : t.lookup key with
+  | none => simp (config := {decide := true}) [semLeaf, h]
+  | some v =>
+    cases hp : Decimal.parse v <;> cases hq : Decimal.parse val <;>
+      simp (config := {decide := true}) [semLeaf, h, hp, hq, semNum]
+
+/-- `and`, `or`, `not` are the Boolean connectives -/
+theorem sem_and (t : Tags) (key cmp val : Str) (vals : List Str) (c : Node) (rest : Nodes) :
+    sem t (.mk sAnd key cmp val vals (.cons c rest)) = (sem t c && sem t (.mk sAnd key cmp val vals rest)) := by
+  rw [sem.eq_def, sem.eq_def t (.mk sAnd key cmp val vals rest)]
+  simp (config := {decide := true}) [semAll]
+
+theorem sem_or (t : Tags) (key cmp val : Str) (vals : List Str) (c : Node) (rest : Nodes) :
+    sem t (.mk sOr key cmp val vals (.cons c rest)) = (sem t c || sem t (.mk sOr key cmp val vals rest)) := by
+  rw [sem.eq_def, sem.eq_def t (.mk sOr key cmp val vals rest)]
+  simp (config := {decide := true}) [semAny]
+
+theorem sem_not (t : Tags) (key cmp val : Str) (vals : List Str) (c : Node) :
+    sem t (.mk sNot key cmp val vals (.cons c .nil)) = !sem t c := by
+  rw [sem.eq_def]
+  simp (config := {decide := true}) [semAll]
+
+/-! ## numerals: `Cmp` agrees with exact decimal comparison -/
+
+/-- for everything `Parse` accepts (parsed values are normalised: no negative zero) the sign of
+`Cmp` is the order of the two rational numbers `±coef/10^prec` -/
+theorem numeric_cmp_exact (s₁ s₂ : Str) (a b : Dec)
+    (h₁ : Decimal.parse s₁ = some a) (h₂ : Decimal.parse s₂ = some b) :
+    (Decimal.cmp a b < 0 ↔ exactLt a b) ∧ (Decimal.cmp a b ≤ 0 ↔ exactLe a b) ∧
+    (Decimal.cmp a b > 0 ↔ exactLt b a) ∧ (Decimal.cmp a b ≥ 0 ↔ exactLe b a) :=
+  cmp_exact a b (parse_norm h₁) (parse_norm h₂)
+
+/-! ## hash -/
+
+/-- structurally equal trees give the same hash input (the encoding is a function of the tree
+alone: no map iteration, no pointer identity, no dependence on nil-vs-empty slices) -/
+theorem hash_congr (n₁ n₂ : Node) (h : n₁ = n₂) : hashInput n₁ = hashInput n₂ := by rw [h]
+
+/-- `MarshalToSizedBufferVT` writes exactly `SizeVT()` bytes, so the `n` bytes `Hash` reads from the
+front of the pooled buffer are the encoding (and not stale pool content). -/
+theorem marshal_length_eq_size (n : Node) : (hashInput n).length = sizeVT n := marshal_length n
+
+/-! ## non-vacuity -/
+
+/-- `and(sw(k,"ab"), not(nex(k)), gte(p,"1.50"))` -/
+def sampleTree : Node :=
+  .mk sAnd [] [] [] [] (.cons (.mk [] [107] cSw [97, 98] [] .nil)
+    (.cons (.mk sNot [] [] [] [] (.cons (.mk [] [107] cNex [] [] .nil) .nil))
+      (.cons (.mk [] [112] cGte [49, 46, 53, 48] [] .nil) .nil)))
+
+example : validate sampleTree = .ok := by decide
+example : WellFormed sampleTree := (validate_iff_wellFormed _).mp (by decide)
+example : NoEmptyInSets sampleTree := by
+  simp (config := {decide := true}) [sampleTree, NoEmptyInSets, NoEmptyInSetsAll]
+example : Match [([107], [97, 98, 99]), ([112], [48, 49, 46, 53])] sampleTree = .val true := by decide
+example : Match [([107], [97, 98, 99]), ([112], [49, 46, 52, 57, 57])] sampleTree = .val false := by decide
+example : Decimal.parse [45, 48] = some ⟨false, 0, 0⟩ ∧ Decimal.parse [49, 46] = none ∧
+    Decimal.parse [49, 101, 51] = none ∧ Decimal.parse [43, 49] = some ⟨false, 1, 0⟩ := by decide
+example : validate (.mk sNot [] [] [] [] (.null .nil)) = .panic ∧
+    validate (.mk sAnd [] [] [] [] .nil) = .err .emptyChildren ∧
+    matchN false [] (.mk [120] [] [] [] [] .nil) = .err .badOp := by decide
+example : hashInput witnessIn = [0x12, 1, 107, 0x1a, 2, 105, 110, 0x2a, 0, 0x2a, 1, 97] := by decide
 
 end CentrifugeVerif.Filter
